@@ -1013,3 +1013,128 @@ func cloneReq(t *rapid.T, r c10Req, sq *vk.Square, height uint64) c10Req {
 	_ = height
 	return out
 }
+
+// ---------------------------------------------------------------------------------------------
+// native fuzz target (thorough tier): arbitrary bytes offered for four pending requests of one
+// fixed square; accepted => the request holds the committed data and the bytes carry its CID.
+
+func FuzzVerifC10_HasherBytes(f *testing.F) {
+	sq := vk.BuildSquare(2, 1, []vk.Run{{NS: vk.BlobNS(0), Start: 0, Len: 2}, {NS: vk.BlobNS(1), Start: 2, Len: 1}}, 99)
+	const height = 77
+	srv := &Blockstore{Getter: squares{height: sq}}
+	mk := func() []c10Req {
+		s, _ := NewEmptySampleBlock(height, shwap.SampleCoords{Row: 1, Col: 2}, 4)
+		r, _ := NewEmptyRowBlock(height, 1, 4)
+		n, _ := NewEmptyRowNamespaceDataBlock(height, 0, vk.BlobNS(0), 4)
+		g, _ := NewEmptyRangeNamespaceDataBlock(height, 0, 2, 2)
+		var out []c10Req
+		for _, b := range []Block{s, r, n, g} {
+			out = append(out, cloneReqFuzz(b, sq))
+		}
+		return out
+	}
+	for i, r := range mk() {
+		h, err := serve(srv, r.blk.CID())
+		if err != nil {
+			f.Fatal(err)
+		}
+		f.Add(uint8(i), h)
+		f.Add(uint8((i+1)%4), h) // the valid block of another pending request
+		ic, cont := splitEnvelope(h)
+		f.Add(uint8(i), envelope(ic, nil))
+		f.Add(uint8(i), cont)
+		f.Add(uint8(i), h[:len(h)/2])
+	}
+	f.Add(uint8(0), []byte{})
+	f.Add(uint8(1), []byte{0x0a, 0xff, 0xff, 0xff, 0xff, 0x0f})
+	f.Fuzz(func(t *testing.T, sel uint8, data []byte) {
+		reqs := mk()
+		for _, r := range reqs {
+			c := r.blk.CID()
+			unmarshalFns.Store(c, &unmarshalEntry{UnmarshalFn: r.blk.UnmarshalFn(sq.Roots)})
+			defer unmarshalFns.Delete(c)
+		}
+		req := reqs[int(sel)%len(reqs)]
+		want := req.blk.CID()
+		ok, panicked := accepts(want, data)
+		if panicked != nil {
+			t.Fatalf("C10 hasher panicked on %d bytes for %s: %v", len(data), req.desc, panicked)
+		}
+		for _, r := range reqs {
+			if !r.empty() {
+				if err := r.check(); err != nil {
+					t.Fatalf("C10 request %s holds data that is not the committed data after %d offered bytes: %v", r.desc, len(data), err)
+				}
+			}
+		}
+		if ok {
+			if req.empty() {
+				t.Fatalf("C10 bytes accepted for %s but the request was not populated", req.desc)
+			}
+			ic, _ := splitEnvelope(data)
+			if c2, err := cid.Cast(ic); err != nil || !c2.Equals(want) {
+				t.Fatalf("C10 bytes accepted for %s although their inner CID is not the requested one", req.desc)
+			}
+		}
+	})
+}
+
+func cloneReqFuzz(b Block, sq *vk.Square) c10Req {
+	r := c10Req{blk: b, desc: b.CID().String()}
+	var t *rapid.T
+	return cloneReqNoT(t, r, sq)
+}
+
+// cloneReqNoT is cloneReq without a rapid.T (only used where EmptyBlock cannot fail).
+func cloneReqNoT(_ *rapid.T, r c10Req, sq *vk.Square) c10Req {
+	nb, err := EmptyBlock(r.blk.CID())
+	if err != nil {
+		panic(err)
+	}
+	out := r
+	out.blk = nb
+	switch b := nb.(type) {
+	case *SampleBlock:
+		out.desc = fmt.Sprintf("sample(%d,%d)", b.ID.RowIndex, b.ID.ShareIndex)
+		out.empty = func() bool { return b.Container.IsEmpty() }
+		out.check = func() error {
+			if !bytes.Equal(b.Container.ToBytes(), sq.RefShare(b.ID.RowIndex, b.ID.ShareIndex)) {
+				return fmt.Errorf("sample differs from the committed share")
+			}
+			return nil
+		}
+	case *RowBlock:
+		out.desc = fmt.Sprintf("row(%d)", b.ID.RowIndex)
+		out.empty = func() bool { return b.Container.IsEmpty() }
+		out.check = func() error {
+			s, err := b.Container.Shares()
+			if err != nil {
+				return err
+			}
+			return vk.SharesBytesEqual(s, sq.Ref[b.ID.RowIndex])
+		}
+	case *RowNamespaceDataBlock:
+		out.desc = fmt.Sprintf("rownd(%d)", b.ID.RowIndex)
+		out.empty = func() bool { return b.Container.IsEmpty() }
+		out.check = func() error {
+			var want [][]byte
+			for c := 0; c < sq.ODS; c++ {
+				if bytes.Equal(sq.Ref[b.ID.RowIndex][c][:libshare.NamespaceSize], b.ID.DataNamespace.Bytes()) {
+					want = append(want, sq.Ref[b.ID.RowIndex][c])
+				}
+			}
+			return vk.SharesBytesEqual(b.Container.Shares, want)
+		}
+	case *RangeNamespaceDataBlock:
+		out.desc = fmt.Sprintf("range[%d,%d)", b.ID.From, b.ID.To)
+		out.empty = func() bool { return b.Container.IsEmpty() }
+		out.check = func() error {
+			want := make([][]byte, 0, b.ID.To-b.ID.From)
+			for i := b.ID.From; i < b.ID.To; i++ {
+				want = append(want, sq.Ref[i/sq.ODS][i%sq.ODS])
+			}
+			return vk.SharesBytesEqual(b.Container.Flatten(), want)
+		}
+	}
+	return out
+}
